@@ -1569,6 +1569,13 @@ M('C17', 'original defect: MPS.save_hdf5 reduces the possibly empty list of bond
   "np.max(self.chi, initial=1)  # same (no non-trivial bond for a single site)", "np.max(self.chi)  # same",
   'HDF5-empty-safe')
 
+M('C19', 'original defect: HelicalLattice.order setter keeps the cached MPS sites', 'tenpy/models/lattice.py',
+  "        self._mps_fix_u = tuple(self._mps_fix_u)\n        self._mps_sites_cache = None\n\n    # the regular lattice has the same order", "        self._mps_fix_u = tuple(self._mps_fix_u)\n\n    # the regular lattice has the same order",
+  'SETTER-invalidate')
+M('C19', 'original defect: IrregularLattice.order setter keeps the cached MPS sites', 'tenpy/models/lattice.py',
+  "            self.N_sites_per_ring = None\n        self._mps_sites_cache = None\n", "            self.N_sites_per_ring = None\n",
+  'SETTER-invalidate')
+
 M('C02', 'original defect: iswapaxes re-binds _qdata to an F-contiguous column selection', NPC,
   "        self._qdata = np.array(self._qdata[:, swap], order='C')  # (column selection is F-contiguous)", "        self._qdata = self._qdata[:, swap]",
   'QDATA-contiguous')
